@@ -89,7 +89,6 @@ structure Txn where
   pc : Pc := .begin
   res : Res := .running
   tracked : List Tr := []
-  reads : List (Nat × Entry) := []      -- what the application was shown (fixed by the work phase)
   seen : List (Nat × Nat) := []         -- pages fetched or updated, with the version seen
   xpages : List Nat := []               -- extra updated pages (structure changes of the B-tree), from the environment
   lockKeys : List Nat := []             -- `nodesKeys`
@@ -127,7 +126,6 @@ structure Work where
   view : Nat → Option Entry
   ids : List Nat
   tracked : List Tr
-  reads : List (Nat × Entry)
   results : List OpRes
 
 def findKey (view : Nat → Option Entry) (ids : List Nat) (k : Int) : Option (Nat × Entry) :=
@@ -146,8 +144,7 @@ def wGet (w : Work) (k : Int) : Work × OpRes :=
   | some (i, e) =>
     let w' := match trOf w.tracked i with
       | some _ => w
-      | none => { w with tracked := w.tracked ++ [{ item := i, act := .get, ent := e, nval := e.val, nver := e.ver }],
-                         reads := w.reads ++ [(i, e)] }
+      | none => { w with tracked := w.tracked ++ [{ item := i, act := .get, ent := e, nval := e.val, nver := e.ver }] }
     (w', { ok := true, val := e.val, ver := e.ver })
 
 def wUpd (w : Work) (k : Int) (v : Option Int) : Work × OpRes :=
@@ -165,7 +162,6 @@ def wUpd (w : Work) (k : Int) (v : Option Int) : Work × OpRes :=
                   view := fset w.view i (some { e with val := nv, ver := nver }) }, { ok := true })
     | none =>
       ({ w with tracked := w.tracked ++ [{ item := i, act := .update, ent := e, nval := nv, nver := e.ver + 1 }],
-                reads := w.reads ++ [(i, e)],
                 view := fset w.view i (some { e with val := nv, ver := e.ver + 1 }) }, { ok := true })
 
 def wAdd (unique : Bool) (w : Work) (id : Nat) (k : Int) (v : Int) (onlyIfAbsent : Bool) : Work × OpRes :=
@@ -184,8 +180,7 @@ def wRmAlias (w : Work) (k : Int) (j : Nat) : Work × OpRes :=
       let t : Tr := match trOf w.tracked j with
         | some t => { t with act := .remove, ent := { t.ent with ver := ej.ver }, nval := ej.val, nver := ej.ver, phys := i }
         | none => { item := j, act := .remove, ent := ej, nval := ej.val, nver := ej.ver, phys := i }
-      let reads := if (trOf w.tracked j).isSome then w.reads else w.reads ++ [(j, ej)]
-      ({ w with tracked := trSet w.tracked t, reads := reads, view := fset w.view i none }, { ok := true })
+      ({ w with tracked := trSet w.tracked t, view := fset w.view i none }, { ok := true })
 
 def wRm (w : Work) (k : Int) : Work × OpRes :=
   match findKey w.view w.ids k with
@@ -201,7 +196,6 @@ def wRm (w : Work) (k : Int) : Work × OpRes :=
                   view := fset w.view i none }, { ok := true })
     | none =>
       ({ w with tracked := w.tracked ++ [{ item := i, act := .remove, ent := e, nval := e.val, nver := e.ver }],
-                reads := w.reads ++ [(i, e)],
                 view := fset w.view i none }, { ok := true })
 
 def wOp (unique : Bool) (w : Work) : Op → Work × OpRes
@@ -256,15 +250,18 @@ def releasePages (g : G) (i : Nat) : G :=
 
 def finish (t : Txn) (r : Res) : Txn := { t with pc := .done, res := r }
 
+/-- what the transaction read: item, and (key, value, versionInDB) of every tracked get / update / remove -/
+def Txn.reads (t : Txn) : List (Nat × Entry) := (t.tracked.filter (·.act ≠ .add)).map fun tr => (tr.item, tr.ent)
+
 /-- Phase1Commit / Phase2Commit error path: `rollback` releases the page locks, then `unlock()` -/
 def failPath (g : G) (i : Nat) (t : Txn) : G :=
   let g := releasePages g i
   let t := { t with lockKeys := [] }
   if t.lockItems.any (·.own) then setTxn g i { t with pc := .ldel 1 } else setTxn g i (finish t .err)
 
-/-- the commit point: the transaction enters the history -/
-def commitPoint (g : G) (i : Nat) (t : Txn) : G :=
-  { g with hist := g.hist ++ [{ txn := i, reads := t.reads, writes := t.tracked.filter (·.writes) }] }
+/-- the commit point: the transaction enters the history with what it read and what this step installs -/
+def commitPoint (g : G) (i : Nat) (t : Txn) (ws : List Tr) : G :=
+  { g with hist := g.hist ++ [{ txn := i, reads := t.reads, writes := ws }] }
 
 /-- after the commit point: unlock pages, then `unlock()` of the item records -/
 def finishOk (g : G) (i : Nat) (t : Txn) : G :=
@@ -272,11 +269,14 @@ def finishOk (g : G) (i : Nat) (t : Txn) : G :=
   let t := { t with lockKeys := [] }
   if t.lockItems.any (·.own) then setTxn g i { t with pc := .ldel 0 } else setTxn g i (finish t .ok)
 
-def applyW (db : Nat → Option Entry) (ws : List Tr) : Nat → Option Entry :=
-  ws.foldl (fun d t => match t.act with
-    | .get => d
-    | .add | .update => fset d t.item (some ⟨t.ent.key, t.nval, t.nver⟩)
-    | .remove => fset d (if t.phys = 0 then t.item else t.phys) none) db
+/-- the effect of one tracked item on the committed data -/
+def applyOne (d : Nat → Option Entry) (t : Tr) : Nat → Option Entry :=
+  match t.act with
+  | .get => d
+  | .add | .update => fset d t.item (some ⟨t.ent.key, t.nval, t.nver⟩)
+  | .remove => fset d (if t.phys = 0 then t.item else t.phys) none
+
+def applyW (db : Nat → Option Entry) (ws : List Tr) : Nat → Option Entry := ws.foldl applyOne db
 
 /-- `lock()` is done (or was not needed): `mergeNodesKeys`, then the page locks -/
 def afterLock (g : G) (i : Nat) (t : Txn) : G :=
@@ -288,124 +288,162 @@ def startLock (g : G) (i : Nat) (t : Txn) : G :=
 def compat (r : Rec) (i : Nat) (t : Tr) : Bool :=
   (r.txn = i && r.gen = t.gen) || (r.act = .get && t.act = .get)
 
-/-- `refetchAndMergeClosure`: reset, replay the tracked actions on the current committed state -/
+/-- `refetchAndMergeClosure`: reset, replay the tracked actions on the current committed state. A replayed add is
+    inserted with the tracker's copy of the item (version already bumped to 1) and is NOT re-registered in the
+    tracker (in-node store); every other item gets a new lock id and `isLockOwner = false`. -/
+def refetchStep (g : G) (acc : Option (List Tr × List Nat)) (tr : Tr) : Option (List Tr × List Nat) :=
+  match acc with
+  | none => none
+  | some (out, newIds) =>
+    if tr.act = .add then
+      -- `AddItem` goes through the same duplicate check as `Add`
+      let view : Nat → Option Entry := fun x =>
+        if newIds.contains x then (out.find? (·.item = x)).map (fun a => ⟨a.ent.key, a.nval, a.nver⟩) else g.db x
+      if g.unique && (findKey view (g.ids ++ newIds) tr.ent.key).isSome then none
+      else some (out ++ [{ tr with live := false, own := false, nver := 1 }], newIds ++ [tr.item])
+    else
+      match g.db tr.item with
+      | none => none
+      | some e =>
+        if e.key = tr.ent.key ∧ e.ver = tr.ent.ver then some (out ++ [{ tr with gen := tr.gen + 1, own := false, phys := 0 }], newIds)
+        else none
+
 def refetch (g : G) (t : Txn) : Option Txn :=
-  let live := t.tracked.filter (·.live)
-  let step (acc : Option (List Tr × List Nat)) (tr : Tr) : Option (List Tr × List Nat) :=
-    match acc with
-    | none => none
-    | some (out, newIds) =>
-      if tr.act = .add then
-        -- `AddItem` goes through the same duplicate check as `Add`
-        let view : Nat → Option Entry := fun x => if newIds.contains x then (out.find? (·.item = x)).map (fun a => ⟨a.ent.key, a.nval, a.nver⟩) else g.db x
-        if g.unique && (findKey view (g.ids ++ newIds) tr.ent.key).isSome then none
-        else some (out ++ [{ tr with live := false, own := false, nver := 1 }], newIds ++ [tr.item])
-      else
-        match g.db tr.item with
-        | none => none
-        | some e =>
-          if e.key = tr.ent.key ∧ e.ver = tr.ent.ver then some (out ++ [{ tr with gen := tr.gen + 1, own := false, phys := 0 }], newIds)
-          else none
-  match live.foldl step (some ([], [])) with
+  match (t.tracked.filter (·.live)).foldl (refetchStep g) (some ([], [])) with
   | none => none
   | some (out, _) =>
     some { t with tracked := out, seen := seenNow g (pagesOf g.pageOf out t.xpages), needsRefetch := false }
 
 def seenCurrent (g : G) (t : Txn) : Bool := t.seen.all fun pv => g.pver pv.1 = pv.2
 
-/-- one scheduler step of transaction `i`; `hint` is environment input (extra updated pages at `begin`; the items
-    whose `isLockOwner` got set before a failing verify loop stopped — Go map order) -/
+/-- the transaction after its work phase; `hint` = extra updated pages (environment) -/
+def beginTxn (g : G) (t : Txn) (hint : List Nat) : Txn :=
+  let w := runProg g.unique { view := g.db, ids := g.ids, tracked := [], results := [] } t.prog
+  { t with tracked := w.tracked, results := w.results, xpages := hint,
+           seen := seenNow g (pagesOf g.pageOf w.tracked hint) }
+
+/-- the work phase -/
+def stepBegin (g : G) (i : Nat) (t : Txn) (hint : List Nat) : G :=
+  let t := beginTxn g t hint
+  if t.abort then setTxn g i (finish t .abort)
+  else if t.tracked.isEmpty then setTxn (commitPoint g i t []) i (finish t .ok)
+  else if t.reader then setTxn g i { t with pc := .validate }
+  else startLock g i t
+
+/-- `lock()`: first read of the lock records -/
+def stepLget (g : G) (i : Nat) (t : Txn) : G :=
+  let items := t.lockItems
+  if items.any (fun tr => match g.recs tr.item with | some r => !compat r i tr | none => false) then failPath g i t
+  else
+    let toSet := (items.filter fun tr => (g.recs tr.item).isNone).map (·.item)
+    if toSet.isEmpty then afterLock g i t else setTxn g i { t with pc := .lset, toSet := toSet }
+
+/-- `lock()`: write the records that were not found — no compare-and-set -/
+def stepLset (g : G) (i : Nat) (t : Txn) : G :=
+  let recs := t.lockItems.foldl (fun r tr => if t.toSet.contains tr.item then fset r tr.item (some (ownRec i tr)) else r) g.recs
+  setTxn { g with recs := recs } i { t with pc := .lverify }
+
+/-- the isLockOwner flag after the verify read of one item -/
+def verifyFlag (g : G) (i : Nat) (toSet : List Nat) (tr : Tr) : Tr :=
+  if tr.locks && toSet.contains tr.item && g.recs tr.item = some (ownRec i tr) then { tr with own := true } else tr
+
+/-- the isLockOwner flag after `checkTrackedItems` read one item -/
+def checkFlag (g : G) (i : Nat) (tr : Tr) : Tr :=
+  if tr.locks then
+    match g.recs tr.item with
+    | none => { tr with own := false }
+    | some r => if r.txn = i && r.gen = tr.gen then { tr with own := true }
+                else if r.act = .get && tr.act = .get then tr else { tr with own := false }
+  else tr
+
+/-- `lock()`: second read; `hint` = the items whose isLockOwner got set before a failing loop stopped (map order) -/
+def stepLverify (g : G) (i : Nat) (t : Txn) (hint : List Nat) : G :=
+  let items := t.lockItems.filter fun tr => t.toSet.contains tr.item
+  let bad := items.any fun tr => match g.recs tr.item with
+    | none => true
+    | some r => !compat r i tr
+  if bad then
+    failPath g i { t with tracked := t.tracked.map fun tr => if hint.contains tr.item then verifyFlag g i t.toSet tr else tr }
+  else
+    afterLock g i { t with tracked := t.tracked.map (verifyFlag g i t.toSet) }
+
+/-- `l2Cache.Lock / DualLock(nodesKeys)`: all or nothing; on success possibly refetch-and-merge -/
+def stepPlock (g : G) (i : Nat) (t : Txn) : G :=
+  if t.lockKeys.any (fun p => match g.plock p with | some j => j ≠ i | none => false) then
+    setTxn g i { t with needsRefetch := true }
+  else
+    let g := { g with plock := fun p => if t.lockKeys.contains p then some i else g.plock p }
+    if t.needsRefetch then
+      match refetch g t with
+      | none => failPath g i { t with tracked := t.tracked.map fun tr => { tr with own := false } }
+      | some t' => startLock g i t'
+    else setTxn g i { t with pc := .validate }
+
+/-- `areFetchedItemsIntact` + `commitUpdatedNodes` version checks (writers); the whole of
+    `commitForReaderTransaction` (readers) -/
+def stepValidate (g : G) (i : Nat) (t : Txn) : G :=
+  if t.reader then
+    if seenCurrent g t then setTxn (commitPoint g i t []) i (finish t .ok)
+    else match refetch g t with
+      | none => setTxn g i (finish t .err)
+      | some t' => setTxn (commitPoint g i t' []) i (finish t' .ok)
+  else if seenCurrent g t then
+    if t.lockItems.isEmpty then
+      if (t.upages g).isEmpty then finishOk (commitPoint g i t []) i t else setTxn g i { t with pc := .install }
+    else setTxn g i { t with pc := .check }
+  else
+    let t := { t with retries := t.retries + 1 }
+    if t.retries ≥ g.maxRetry then failPath g i t
+    else
+      -- rollback(false): page locks released, nodesKeys = nil, unlock(); then refetch on the next round
+      let g := releasePages g i
+      let t := { t with lockKeys := [], needsRefetch := true }
+      if t.lockItems.any (·.own) then setTxn g i { t with pc := .ldel 2 } else setTxn g i { t with pc := .plock }
+
+/-- `checkTrackedItems`: "not found" is not an error -/
+def stepCheck (g : G) (i : Nat) (t : Txn) : G :=
+  let bad := t.lockItems.any fun tr => match g.recs tr.item with
+    | none => false
+    | some r => !compat r i tr
+  let t := { t with tracked := t.tracked.map (checkFlag g i) }
+  if bad then failPath g i t
+  else if (t.upages g).isEmpty then finishOk (commitPoint g i t []) i t
+  else setTxn g i { t with pc := .install }
+
+/-- the committed data after the registry flip of transaction `t` -/
+def installData (g : G) (t : Txn) : G :=
+  let ws := t.tracked.filter (·.writes)
+  let ups := t.upages g
+  { g with db := applyW g.db ws,
+           ids := g.ids ++ ((ws.filter (·.act = .add)).map (·.item)).filter (fun x => !g.ids.contains x),
+           pver := fun p => if ups.contains p then g.pver p + 1 else g.pver p }
+
+/-- phase 2: the registry flip — ONE atomic step -/
+def stepInstall (g : G) (i : Nat) (t : Txn) : G :=
+  finishOk (commitPoint (installData g t) i t (t.tracked.filter (·.writes))) i t
+
+/-- `unlock()`: delete BY KEY every record whose isLockOwner flag is set, whoever holds it now -/
+def stepLdel (g : G) (i : Nat) (t : Txn) (k : Nat) : G :=
+  let dels := (t.lockItems.filter (·.own)).map (·.item)
+  let g := { g with recs := fun x => if dels.contains x then none else g.recs x }
+  if k = 0 then setTxn g i (finish t .ok)
+  else if k = 1 then setTxn g i (finish t .err)
+  else setTxn g i { t with pc := .plock }
+
+/-- one scheduler step of transaction `i`; `hint` is environment input -/
 def step (g : G) (i : Nat) (hint : List Nat) : G :=
   let t := g.txns i
   match t.pc with
   | .done => g
-  | .begin =>
-    let w := runProg g.unique { view := g.db, ids := g.ids, tracked := [], reads := [], results := [] } t.prog
-    let t := { t with tracked := w.tracked, reads := w.reads, results := w.results, xpages := hint }
-    let t := { t with seen := seenNow g (pagesOf g.pageOf t.tracked t.xpages) }
-    if t.abort then setTxn g i (finish t .abort)
-    else if t.tracked.isEmpty then setTxn (commitPoint g i t) i (finish t .ok)
-    else if t.reader then setTxn g i { t with pc := .validate }
-    else startLock g i t
-  | .lget =>
-    let items := t.lockItems
-    if items.any (fun tr => match g.recs tr.item with | some r => !compat r i tr | none => false) then failPath g i t
-    else
-      let toSet := (items.filter fun tr => (g.recs tr.item).isNone).map (·.item)
-      if toSet.isEmpty then afterLock g i t else setTxn g i { t with pc := .lset, toSet := toSet }
-  | .lset =>
-    let recs := t.lockItems.foldl (fun r tr => if t.toSet.contains tr.item then fset r tr.item (some (ownRec i tr)) else r) g.recs
-    setTxn { g with recs := recs } i { t with pc := .lverify }
-  | .lverify =>
-    let items := t.lockItems.filter fun tr => t.toSet.contains tr.item
-    let bad := items.any fun tr => match g.recs tr.item with
-      | none => true
-      | some r => !compat r i tr
-    if bad then
-      let tracked := t.tracked.map fun tr =>
-        if hint.contains tr.item && tr.locks && t.toSet.contains tr.item && g.recs tr.item = some (ownRec i tr) then { tr with own := true } else tr
-      failPath g i { t with tracked := tracked }
-    else
-      let tracked := t.tracked.map fun tr =>
-        if tr.locks && t.toSet.contains tr.item && g.recs tr.item = some (ownRec i tr) then { tr with own := true } else tr
-      afterLock g i { t with tracked := tracked }
-  | .plock =>
-    if t.lockKeys.any (fun p => match g.plock p with | some j => j ≠ i | none => false) then
-      setTxn g i { t with needsRefetch := true }
-    else
-      let g := { g with plock := fun p => if t.lockKeys.contains p then some i else g.plock p }
-      if t.needsRefetch then
-        match refetch g t with
-        | none => failPath g i { t with tracked := t.tracked.map fun tr => { tr with own := false } }
-        | some t' => startLock g i t'
-      else setTxn g i { t with pc := .validate }
-  | .validate =>
-    if t.reader then
-      if seenCurrent g t then setTxn (commitPoint g i t) i (finish t .ok)
-      else match refetch g t with
-        | none => setTxn g i (finish t .err)
-        | some t' => setTxn (commitPoint g i t') i (finish t' .ok)
-    else if seenCurrent g t then
-      if t.lockItems.isEmpty then
-        if (t.upages g).isEmpty then finishOk (commitPoint g i t) i t else setTxn g i { t with pc := .install }
-      else setTxn g i { t with pc := .check }
-    else
-      let t := { t with retries := t.retries + 1 }
-      if t.retries ≥ g.maxRetry then failPath g i t
-      else
-        -- rollback(false): page locks released, nodesKeys = nil, unlock(); then refetch on the next round
-        let g := releasePages g i
-        let t := { t with lockKeys := [], needsRefetch := true }
-        if t.lockItems.any (·.own) then setTxn g i { t with pc := .ldel 2 } else setTxn g i { t with pc := .plock }
-  | .check =>
-    let bad := t.lockItems.any fun tr => match g.recs tr.item with
-      | none => false
-      | some r => !compat r i tr
-    let tracked := t.tracked.map fun tr =>
-      if tr.locks then
-        match g.recs tr.item with
-        | none => { tr with own := false }
-        | some r => if r.txn = i && r.gen = tr.gen then { tr with own := true }
-                    else if r.act = .get && tr.act = .get then tr else { tr with own := false }
-      else tr
-    let t := { t with tracked := tracked }
-    if bad then failPath g i t
-    else if (t.upages g).isEmpty then finishOk (commitPoint g i t) i t
-    else setTxn g i { t with pc := .install }
-  | .install =>
-    let ws := t.tracked.filter (·.writes)
-    let ups := t.upages g
-    let g := { g with db := applyW g.db ws,
-                      ids := g.ids ++ ((ws.filter (·.act = .add)).map (·.item)).filter (fun x => !g.ids.contains x),
-                      pver := fun p => if ups.contains p then g.pver p + 1 else g.pver p }
-    finishOk (commitPoint g i t) i t
-  | .ldel k =>
-    -- `unlock()`: delete BY KEY every record whose isLockOwner flag is set, whoever holds it now
-    let dels := (t.lockItems.filter (·.own)).map (·.item)
-    let g := { g with recs := fun x => if dels.contains x then none else g.recs x }
-    if k = 0 then setTxn g i (finish t .ok)
-    else if k = 1 then setTxn g i (finish t .err)
-    else setTxn g i { t with pc := .plock }
+  | .begin => stepBegin g i t hint
+  | .lget => stepLget g i t
+  | .lset => stepLset g i t
+  | .lverify => stepLverify g i t hint
+  | .plock => stepPlock g i t
+  | .validate => stepValidate g i t
+  | .check => stepCheck g i t
+  | .install => stepInstall g i t
+  | .ldel k => stepLdel g i t k
 
 def run (g : G) (sched : List (Nat × List Nat)) : G := sched.foldl (fun g s => step g s.1 s.2) g
 
